@@ -13,8 +13,6 @@ Lemma pair3 {A} (a b c a' b' c' : A) :
 Proof. now intros -> -> ->. Qed.
 Ltac v3eq := apply pair3.
 
-(* the parameter list of a card from its vectors *)
-Definition pl (v : pt) : list R := let '(x, y, z) := v in [x; y; z].
 
 Lemma scal_dot (u v : pt) : scal RS u v = dot u v.
 Proof. destruct u as [[a b] c], v as [[d e] f]. reflexivity. Qed.
